@@ -186,7 +186,7 @@ func corrC12(r *Run) {
 		"(fresh recording writer; *bytes.Buffer and a wrapper already holding 1..100 octets; a writer that gives up after 0..frame+5 octets; the same pointer marshalled twice); " +
 		"non-trivial = distinct (type, value) with at least one field beyond the header; distinct by canonical value text"
 	ts := pduTypes()
-	n := r.N(20, 600)         // per type
+	n := r.N(14, 600)         // per type
 	bigBudget := r.N(25, 600) // values whose term is tens of KiB are slow to parse inside coqc: a fixed number per run
 	vol := &pduVolume{}
 	defer vol.diff(r)
@@ -320,7 +320,7 @@ func corrC12(r *Run) {
 				m.Message = []byte{0x41}
 			}
 			p.Elem().Field(mi).Set(reflect.ValueOf(m))
-			one(t, p.Interface(), 1+2*k, (k+nt)%4 == 0, "/udh-sweep") // odd index: no extra destinations by index; tag forces a held buffer
+			one(t, p.Interface(), 1+2*k, (k+nt)%6 == 0, "/udh-sweep") // odd index: no extra destinations by index; tag forces a held buffer
 		}
 		nt++
 	}
